@@ -10,6 +10,8 @@ Search (direct oracles on the implementation only):
   delete         the result changes when rules whose condition is false / not evaluable are deleted
   append         merchant/category/subcategory change when rules are appended after the winner
   transforms     normalize_merchant(d, transforms) != normalize_merchant(transformed d, no transforms)
+  sequence       a transaction classified after others in the same load (normalize_merchant back to back, or as a row of a
+                 statement through parse_generic_csv) gets another merchant/category/subcategory than when classified alone
   aborted        any exception escapes match()/normalize_merchant (since /repo 58dcdc1 evaluation errors are ExpressionErrors
                  and skip the rule; RCrash stays in the model so that a regression shows up in the oracle tables and here)
 """
@@ -301,6 +303,13 @@ def evaluate(cases, rnd, oracle=True):
     for req, vr in zip(reqs, vres):
         for name, det, sig in judge_variant(cases[req['ci']], base[req['ci']], req, vr):
             fails.append((req['ci'], req['ti'], name, det, sig, req['case']))
+    # the same transactions classified back to back in one load / as rows of one statement (m/c/s; tags are C02's)
+    for ci, (c, jr) in enumerate(zip(cases, base)):
+        if 'parse_error' in jr or 'harness_error' in jr:
+            continue
+        for ti, mode, what, det in judge_one_load(c, jr):
+            if what == 'mcs' and mode != 'most_specific':
+                fails.append((ci, 0 if ti is None else ti, 'sequence', det, None, None))
     # Unknown name is a function of the (transformed) description
     names = {}
     for ci, (c, jr) in enumerate(zip(cases, base)):
@@ -317,7 +326,7 @@ def evaluate(cases, rnd, oracle=True):
             (ci, ti) = wit[-1]
             fails.append((ci, ti, 'unknown-name', {'why': 'equal descriptions, different Unknown merchant names', 'description': d,
                                                    'names': sorted(m)}, None,
-                          [{'kind': cases[a]['kind'], 'file': cases[a]['file'], 'txns': [cases[a]['txns'][b]]} for a, b in wit[:-1]]))
+                          [sub_case(cases[a], None, [cases[a]['txns'][b]]) for a, b in wit[:-1]]))
     stats = {'variants': {}, 'unknown_descriptions': len(names),
              'unknown_descriptions_seen_repeatedly': sum(1 for d in names if sum(
                  1 for c, jr in zip(cases, base) if 'txns' in jr for tr in jr['txns'] if tr['state']['desc'] == d) > 1)}
@@ -326,9 +335,9 @@ def evaluate(cases, rnd, oracle=True):
     return base, fails, stats
 
 
-def still_fails_factory(kind, txn, oracle_name, rnd_seed):
+def still_fails_factory(c, txns, oracle_name, rnd_seed):
     def still(f):
-        cases = [{'kind': kind, 'file': f, 'txns': [txn]}]
+        cases = [sub_case(c, f, txns)]
         try:
             _, fails, _ = evaluate(cases, random.Random(rnd_seed))
         except Exception:  # noqa
@@ -340,16 +349,32 @@ def still_fails_factory(kind, txn, oracle_name, rnd_seed):
 # ---------------------------------------------------------------------------------------------------
 def gen_cases(seed, tier):
     rnd = random.Random(seed * 7919 + 101)
-    nr, nc = (230, 110) if tier == 'quick' else (6000, 3000)
+    nr, nc = (190, 90) if tier == 'quick' else (5000, 2500)
     cases = []
-    for _ in range(nr):
-        f = gen_rules_file(rnd)
+    for k in range(nr):
+        f = gen_rules_file(rnd, dup_names_p=0.1)
         ws = file_words(render_rules(f))
-        cases.append({'kind': 'rules', 'file': f, 'txns': [gen_txn(rnd, ws) for _ in range(4)]})
-    for _ in range(nc):
+        # every file is run on 3 transactions plus neighbours of the first (same description/amount/date, other custom
+        # field / location / source) back to back; half of the files without supplemental data sources
+        cases.append({'kind': 'rules', 'file': f, 'txns': with_neighbours(rnd, [gen_txn(rnd, ws) for _ in range(3)]),
+                      'ds': DS if k % 2 else None})
+    for k in range(nc):
         f = gen_csv_file(rnd)
         ws = file_words(render_csv(f))
-        cases.append({'kind': 'csv', 'file': f, 'txns': [gen_txn(rnd, ws) for _ in range(4)]})
+        cases.append({'kind': 'csv', 'file': f, 'txns': with_neighbours(rnd, [gen_txn(rnd, ws) for _ in range(3)]),
+                      'ds': DS if k % 2 else None})
+    # corpus: rows of one statement that differ only in a custom column, decided by rules reading field.memo
+    zrule = lambda n, m, c, s: {'name': n, 'match': m, 'category': c, 'subcategory': s, 'merchant': '', 'tags': [], 'priority': None,
+                                'lets': [], 'fields': []}
+    ztx = lambda d, a, dt, memo, **kw: dict({'d': d, 'a': a, 'date': dt, 'field': {'memo': memo}, 'source': 'Amex', 'location': None}, **kw)
+    cases.append({'kind': 'rules', 'ds': None, 'file': {'vars': [], 'tfs': [], 'rules': [
+        zrule('Childcare', 'contains("ZELLE") and contains(field.memo, "BABYSITTER")', 'Family', 'Childcare'),
+        zrule('Rent', 'contains("CHECK PAID") and contains(field.memo, "RENT")', 'Housing', 'Rent'),
+        zrule('Zelle Other', 'contains("ZELLE")', 'Transfers', 'P2P'), zrule('Checks', 'contains("CHECK PAID")', 'Bills', 'Checks')]},
+        'txns': [ztx('ZELLE PAYMENT', 30720, '2025-05-02', 'POKER NIGHT'), ztx('ZELLE PAYMENT', 30720, '2025-05-02', 'BABYSITTER FRI'),
+                 ztx('CHECK PAID', 768000, '2025-05-03', 'RENT MAY'), ztx('CHECK PAID', 768000, '2025-05-03', 'ROOF REPAIR'),
+                 ztx('CHECK PAID', 768000, '2025-05-03', 'ROOF REPAIR', location='Seattle, WA'),
+                 ztx('CHECK PAID', 768000, '2025-05-03', 'RENT JUNE', source='Chase')]})
     # boundary stream for the legacy modifiers: the modified row wins exactly when the modifier holds
     def brow(mod):
         return {'rows': [{'pattern': 'UBER' + mod, 'merchant': 'With Modifier', 'category': 'A', 'subcategory': 'a', 'tags': ['m']},
@@ -418,24 +443,32 @@ def main(tier):
         det0 = det
         c = cases[ci]
         f0 = c['file']
-        small, case_out = f0, {'kind': c['kind'], 'file': f0, 'txns': c['txns']}     # full case unless the single-txn case reproduces
+        small, case_out = f0, sub_case(c)     # the full case unless a smaller one reproduces
         if name != 'unknown-name':
-            still = still_fails_factory(c['kind'], c['txns'][ti], name, run.seed)
+            txs = c['txns'] if name == 'sequence' else [c['txns'][ti]]      # a sequence failure needs its predecessors
+            still = still_fails_factory(c, txs, name, run.seed)
             if still(f0):
                 small = (shrink_rules if c['kind'] == 'rules' else shrink_csv)(f0, still)
-                _, f2, _ = evaluate([{'kind': c['kind'], 'file': small, 'txns': [c['txns'][ti]]}], random.Random(run.seed))
+                i = 0
+                while len(txs) > 1 and i < len(txs):
+                    cand = txs[:i] + txs[i + 1:]
+                    if still_fails_factory(c, cand, name, run.seed)(small):
+                        txs = cand
+                    else:
+                        i += 1
+                _, f2, _ = evaluate([sub_case(c, small, txs)], random.Random(run.seed))
                 f2 = [x for x in f2 if x[2] == name]
                 if f2:
                     det = f2[0][3]
                     if f2[0][4] != sig:       # shrinking drifted to a differently-classified failure: keep the original
-                        small, det = f0, det0
-                case_out = {'kind': c['kind'], 'file': small, 'txns': [c['txns'][ti]]}
+                        small, txs, det = f0, (c['txns'] if name == 'sequence' else [c['txns'][ti]]), det0
+                case_out = sub_case(c, small, txs)
         obj = {'kind': 'counterexample', 'oracle': name, 'case': case_out,
                'text': render_rules(small) if c['kind'] == 'rules' else render_csv(small), 'detail': det,
                'n_failing': len(fl), 'shrunk_from': len(f0.get('rules', f0.get('rows', []))), 'seed': run.seed,
                'obligation': 'c01_* on the implementation', 'broken': broken}
         if name == 'unknown-name':
-            obj['case'] = {'kind': c['kind'], 'file': f0, 'txns': [c['txns'][ti]]}
+            obj['case'] = sub_case(c, f0, [c['txns'][ti]])
             obj['more_cases'] = vcase
         if run.violation(name, obj, signature=sig):
             found_unlisted = True
@@ -494,8 +527,11 @@ def main(tier):
                 hist_add(nm_hist, 'csv:' + str(k))
                 if k >= 2 and e not in (None, 0):
                     nontrivial.add(json.dumps([c['file'], t], sort_keys=True))
+    seq_calls = sum(len(ol.get('seq', [])) for jr in base for ol in (jr.get('one_load') or {}).values())
+    stmt_rows = sum(len(ol.get('rows', [])) for jr in base for ol in (jr.get('one_load') or {}).values())
     run.cov.update({
-        'evaluations': evals + sum(stats['variants'].values()) + n_rows, 'distinct_nontrivial': len(nontrivial),
+        'back_to_back_normalize_calls': seq_calls, 'statement_rows_through_parse_generic_csv': stmt_rows,
+        'evaluations': seq_calls + stmt_rows + evals + sum(stats['variants'].values()) + n_rows, 'distinct_nontrivial': len(nontrivial),
         'rule': 'distinct (rule file, transaction) pairs in which >= 2 rules match and the winner is not the first rule; files of 1-8 '
                 'rules (40% tag-only), overlapping patterns over a 6-word vocabulary, all match functions, amount/date/field/source '
                 'comparisons, and/or/not, variables, let, field:, priority, static+dynamic tags, transforms; legacy CSV rows with every '
